@@ -86,9 +86,14 @@ IntMat(M) == [i \in 1..Len(M) |-> IntVec(M[i])]
 Col(M, j) == TLCEval([i \in 1..Len(M) |-> M[i][j]])
 Transpose(M) == TLCEval([j \in 1..Cols(M) |-> Col(M, j)])
 
+(* positions of the non-zero entries: rows of projectors and rotations are sparse *)
+Support(v) == SelectSeq([j \in 1..Len(v) |-> j], LAMBDA j : v[j][1] # 0)
+DotOn(s, u, v) == RSum([k \in 1..Len(s) |-> RMul(u[s[k]], v[s[k]])])
 MatMul(A, B) ==
   LET BT == Transpose(B)
-  IN TLCEval([i \in 1..Rows(A) |-> [j \in 1..Len(BT) |-> Dot(A[i], BT[j])]])
+  IN TLCEval([i \in 1..Rows(A) |->
+                LET s == TLCEval(Support(A[i]))
+                IN [j \in 1..Len(BT) |-> DotOn(s, A[i], BT[j])]])
 MatVec(A, v) == TLCEval([i \in 1..Rows(A) |-> Dot(A[i], v)])       \* A . v (column)
 VecMat(v, A) == MatVec(Transpose(A), v)                            \* v . A (row)
 MatAdd(A, B) == TLCEval([i \in 1..Rows(A) |-> VAdd(A[i], B[i])])
